@@ -23,6 +23,7 @@ class Compiler:
         self.next_internal_symbol_prefix = 1
         self.times_file_compiled = collections.defaultdict(int)
         self.internal_prefix_to_state = {}
+        self.include_depth = 0
 
 
     def compile_file(self, file, start, link_base):
